@@ -92,6 +92,8 @@ func report(o *runOpts, P *Prog, results []*FuncResult, undecided []string, tLoa
 				if o.verbose {
 					fmt.Printf("  ok    %-60s %s %.2fs\n", ob.Name, ob.Solver, ob.TimeS)
 				}
+			} else if ob.Result == "error" {
+				undecided = append(undecided, r.Name+": every solver rejected the query of "+ob.Name+" (ill-formed VC: generator defect, no verdict)")
 			} else {
 				failing = append(failing, ob)
 				failVC[ob] = r
